@@ -142,7 +142,9 @@ class Wild:
             lo = r.randrange(0, 3)
             pool = list(NAMES) + [p for p, k in params if k == "int"]
             hi = r.choice([self.lit(lo + r.randrange(0, 4)), self.lit(lo + r.randrange(0, 4)), f"{r.choice(pool)} & 3"])
-            return [("for", self.name(), self.lit(lo), hi, self.body(depth + 1, params, n=r.randrange(1, 3)))]
+            lo_txt = r.choice([self.lit(lo), self.lit(lo), f"{self.lit(lo * 2 + r.randrange(0, 2))} >> 1", f"{self.lit(lo | 0x10)} & 0xf",
+                               f"{r.choice(pool)} & 3", f"1 << {r.randrange(0, 2)}"])
+            return [("for", self.name(), lo_txt, hi, self.body(depth + 1, params, n=r.randrange(1, 3)))]
         if c < 0.97 and self.macros:
             # applications only of macros defined earlier: nesting is bounded
             name, ps = r.choice(self.macros)
@@ -156,14 +158,14 @@ class Wild:
                 args = args[:-1]
             self.count("apply")
             return [("apply", name, args)]
-        if 0.97 <= c < 0.974:
+        if 0.97 <= c < 0.976:
             # a macro that no program of this run defines under that name with that arity: must fail, also when an
             # earlier assembly in the same process defined one
             self.count("apply-undefined")
             defined = {n for n, _ in self.macros}
             cands = [n for n in ("m1", "m2", "m3", "m4") if n not in defined] + ["m7"]
             return [("apply", r.choice(cands), [self.expr(params) for _ in range(r.randrange(0, 3))])]
-        if 0.974 <= c < 0.98 and depth <= 1:
+        if 0.976 <= c < 0.981 and depth <= 1:
             self.count("include_ips")
             return [("include_ips", "w.ips", r.choice(["0", "0x10", "-0x8", "0x200", self.name()]))]
         if c < 0.985 and depth == 0:
